@@ -151,16 +151,17 @@ def record(lentil, tier, seed, reverse=False):
 def moments(ctx, lentil):
     """numeric leaf: statistical clauses with fixed seeds and 6-sigma bounds"""
     d = lentil.detector
-    n = 400 * 400
-    for lam in (50.0, 2000.0, 1e5):
+    n = 1200 * 1200            # (a bias of half a count at a signal of 1000 is 18 standard errors of the mean)
+    for lam in (50.0, 1000.0, 2000.0, 1e5):
         for method in ('poisson', 'gaussian'):
             if method == 'gaussian' and lam < 1000:
                 continue                      # documented large-count regime of the normal approximation
-            x = d.shot_noise(np.full((400, 400), lam), method=method, seed=11)
+            x = d.shot_noise(np.full((1200, 1200), lam), method=method, seed=11)
             m, v = x.mean(), x.var()
-            # the floor() of the Gaussian variant shifts the mean by at most one count
-            if abs(m - lam) > 6 * np.sqrt(lam / n) + (1.0 if method == 'gaussian' else 0) or abs(v - lam) > 6 * lam * np.sqrt(2 / n) + 1:
+            # (rounding to integers adds 1/12 to the variance and nothing to the mean)
+            if abs(m - lam) > 6 * np.sqrt(lam / n) or abs(v - lam) > 6 * lam * np.sqrt(2 / n) + 1:
                 ctx.violation({'kind': 'shot-noise-moments', 'method': method}, {'signal': lam, 'mean': float(m), 'variance': float(v)}, case=None)
+    n = 400 * 400
     for sig in (0.4, 1.0, 12.5):
         for dt in (float, np.int64, np.uint16):
             base = np.full((400, 400), 100, dtype=dt)
